@@ -220,4 +220,22 @@ CHECKS["C11"] = {
     ],
 }
 
+CHECKS["C12"] = {
+    "pkg": "./checks/c12",
+    "level": "exploration",
+    "rule": "generated chain histories with one deputy (asset transactions need their asset's creation to be stable; the asynchronous asset indexes are drained after every block), 3..9 blocks of 1..7 candidates weighted to "
+            "create-asset (3 categories) / issue / replenish / modify (freeze, unfreeze, new keys) / transfer-asset with amounts {0, 1, 7, 100, 1000, -1, -50, 2^255}, by the issuer or a foreign account, to users, contracts, fresh accounts, self and the burn address 0x0, "
+            "also inside boxes. After every block, from the account states of parent and block over all known addresses and every asset id named in a change log: recorded supply == sum of holders' equity for every divisible asset; "
+            "no negative supply or equity; supply grows by at most what packaged issue/replenish transactions of the issuer mint and not at all without an asset transaction; only the issuer's transactions mint or modify; "
+            "an equity decreases only if its holder sent a packaged transfer of exactly that asset id; packaged amounts are positive (issue) / non-negative (transfer); frozen assets do not move. "
+            "non-trivial = an asset with >= 2 holders and an adversarial amount offered; distinct by history digest.",
+    "level_text": "Invariant and transition checking with an independent asset ledger read through public accessors after every generated block; exploration bounded by grammar and history length.",
+    "level_note": "Trusted: the address universe contains every holder; asset ids are harvested from change logs of trial assemblies; a packaged non-contract asset transaction is a successful one (failing ones are discarded by the miner).",
+    "technique": "rapid-generated histories checked against ledger invariants and per-block transition rules",
+    "assumptions": ["a transfer to the all-zero address destroys the sender's own equity (the statement's burn)", "non-divisible assets count issued tokens, so supply == sum of equity is only demanded for divisible ones"],
+    "units": [
+        {"name": "assets", "test": "TestC12Assets", "quick": {"checks": 150, "shards": 4, "timeout": 900}, "thorough": {"checks": 2500, "shards": 12, "timeout": 3400}},
+    ],
+}
+
 NOT_APPLICABLE = {}
